@@ -20,6 +20,7 @@ class C17Hook:
     def __init__(self):
         self.stats = {"envelopes_validated": 0, "sources_compared": 0, "unreadable_sources": 0, "abandoned": 0, "cli_runs": 0, "collisions": 0}
         self.combos = set()
+        self.stream_ids = {}
 
     def _shape(self, run, ts, oi, si, envs):
         for ei, ev in enumerate(envs):
@@ -39,7 +40,19 @@ class C17Hook:
         elif op["op"] == "cli":
             self.check_cli(run, ts, oi, op, rec)
 
+    def check_ids(self, run, ts, oi, op, rec):
+        """ids of one stream's whole history are pairwise distinct (evaluated as the history grows)."""
+        seen = self.stream_ids.setdefault((ts.ti, op["s"]), {})
+        for si, envs in enumerate(rec["snap"]):
+            for ev in envs:
+                for i in engine.collect_ids(ev, ("id",)):
+                    if i in seen:
+                        run.violation("C17-ids", ts.ti, oi, "$source[%d]" % si, "id %r unique within the stream" % i, "also emitted in op %d source %d" % seen[i])
+                    else:
+                        seen[i] = (oi, si)
+
     def check_stream(self, run, ts, oi, op, rec):
+        self.check_ids(run, ts, oi, op, rec)
         fs = seams.cur_fs()
         opts = ts.spec["streams"][op["s"]]["o"]
         cons = (op.get("consumer") or {"k": "drain"})
@@ -114,20 +127,6 @@ class C17Hook:
 
     def at_end(self, run):
         fs = seams.cur_fs()
-        # ids of one stream's whole history are pairwise distinct
-        for ts in run.states:
-            per_stream = {}
-            for oi, (op, rec) in enumerate(zip(ts.spec["ops"], ts.records)):
-                if op["op"] != "stream":
-                    continue
-                seen = per_stream.setdefault(op["s"], {})
-                for si, envs in enumerate(rec["snap"]):
-                    for ev in envs:
-                        for i in engine.collect_ids(ev, ("id",)):
-                            if i in seen:
-                                run.violation("C17-ids", ts.ti, oi, "$source[%d]" % si, "id %r unique within the stream" % i, "also emitted in op %d source %d" % seen[i])
-                            else:
-                                seen[i] = (oi, si)
         collided = [p for p in fs.exists_true if p not in ()]
         if collided:
             self.stats["collisions"] += 1
@@ -184,7 +183,7 @@ def enum_spec(index):
     ops.append({"op": "stream", "s": 7, "paths": [q, p, p]})
     ops.append({"op": "cli", "argv": [p, q]})
     ops.append({"op": "cli", "argv": ["--no-source", "--no-pickles", q, p]})
-    return {"scenario": "enum", "prop": "C17", "labels": [name, "crlf" if variant else "as-is"], "oracles": ["stable", "progress"], "golden": golden or {},
+    return {"scenario": "enum", "prop": "C17", "labels": [name, "crlf" if variant else "as-is"], "oracles": ["stable", "progress", "offset"], "golden": golden or {},
             "cfg": {"flavour": "inc", "chunk_max": [0, 3][variant], "fs_seed": index, "salt": 1}, "gens": 0,
             "fs": {"files": {p: text, q: ntext}}, "tasks": [{"streams": [{"o": o} for o in ALL_OPTS], "ops": ops}]}
 
@@ -243,7 +242,23 @@ def _stream_ops(rng, paths, nstreams, nops):
     return ops
 
 
+def gen_series(rng):
+    """One stream over k same-shape files, consumer keeps nothing (each envelope is dropped after it was checked)."""
+    k = rng.randint(3, 8)
+    series = workload.template_series(rng, k)
+    files = {"/simfs/ser/f%d.feature" % i: t for i, (_lb, t) in enumerate(series)}
+    opts = ALL_OPTS[rng.randrange(8)] if rng.random() < 0.3 else [True, True, True]
+    ops = [{"op": "stream", "s": 0, "paths": list(files), "consumer": {"k": "drain"}}]
+    if rng.random() < 0.5:
+        ops.append({"op": "stream", "s": 0, "paths": list(files)[: rng.randint(1, k)], "consumer": {"k": "drain"}})
+    return {"scenario": "hist", "prop": "C17", "labels": [lb for lb, _ in series], "oracles": ["stable", "progress", "offset"],
+            "cfg": {"flavour": "inc", "salt": 1, "chunk_max": rng.choice([0, 3]), "fs_seed": rng.getrandbits(30), "drop": True},
+            "gens": 0, "fs": {"files": files}, "tasks": [{"streams": [{"o": opts}], "ops": ops}], "stream_like": True}
+
+
 def gen_hist(rng):
+    if rng.random() < 0.1:
+        return gen_series(rng)
     files, binfiles, faults, paths, labels = _mk_fs(rng, rng.randint(1, 6), "t0")
     nstreams = rng.randint(1, 3)
     streams = [{"o": ALL_OPTS[rng.randrange(8)] if rng.random() < 0.6 else [True, True, True]} for _ in range(nstreams)]
@@ -265,7 +280,7 @@ def gen_hist(rng):
         if good:
             flags = [f for f in ("--no-source", "--no-ast", "--no-pickles") if rng.random() < 0.3]
             ops.insert(rng.randrange(len(ops) + 1), {"op": "cli", "argv": flags + [good[rng.randrange(len(good))] for _ in range(rng.randint(1, 3))]})
-    spec = {"scenario": "hist", "prop": "C17", "labels": labels, "oracles": ["stable", "progress"],
+    spec = {"scenario": "hist", "prop": "C17", "labels": labels, "oracles": ["stable", "progress", "offset"],
             "cfg": {"flavour": rng.choice(["inc", "inc", "opaque"]), "salt": rng.getrandbits(32), "chunk_max": rng.choice([0, 1, 2, 3, 7, 64, 4096]),
                     "fs_seed": rng.getrandbits(30), "locale": rng.choice(["utf-8", "cp1252", "ascii"])},
             "gens": 0, "fs": {"files": files, "binfiles": binfiles, "faults": faults}, "tasks": [{"streams": streams, "ops": ops}]}
@@ -298,7 +313,7 @@ def gen_inter(rng):
         tasks.append({"streams": [{"o": ALL_OPTS[rng.randrange(8)] if rng.random() < 0.5 else [True, True, True]} for _ in range(nstreams)],
                       "ops": _stream_ops(rng, paths, nstreams, rng.randint(1, 2))})
         labels.append(lb)
-    spec = {"scenario": "inter", "prop": "C17", "labels": labels, "oracles": ["stable", "progress"], "force_kernel": True,
+    spec = {"scenario": "inter", "prop": "C17", "labels": labels, "oracles": ["stable", "progress", "offset"], "force_kernel": True,
             "cfg": {"flavour": rng.choice(["inc", "opaque"]), "salt": rng.getrandbits(32), "chunk_max": rng.choice([0, 1, 3, 64]),
                     "fs_seed": rng.getrandbits(30), "policy": POLICIES[rng.randrange(len(POLICIES))], "sched_seed": rng.getrandbits(32)},
             "gens": 0, "fs": {"files": files, "binfiles": binfiles, "faults": faults}, "tasks": tasks}
@@ -312,7 +327,8 @@ class C17(Prop):
 
     def count(self, scen, tier):
         c = self.counts[tier][scen]
-        return n_enum() if c == "all" else c
+        from .props import scaled
+        return n_enum() if c == "all" else scaled(c)
 
     def spec(self, scen, index, seed):
         if scen == "enum":
